@@ -2,9 +2,10 @@
    Only statements closed by [exact]; proofs live in proof/TopoPlaceProofs.v.
    Model: model/TopoPlace.v (findEmptySlotsForOneVolume, PickNodesByWeight,
    ReserveOneVolume, AvailableSpaceFor, with explicit oracles for math/rand and for
-   Go map iteration order). *)
+   Go map iteration order; VolumeGrowth.grow / findAndGrow with an oracle for the
+   AllocateVolume RPC answers). *)
 From Coq Require Import String List ZArith Bool Permutation.
-From SW Require Import model.TopoPlace proof.TopoPlaceProofs.
+From SW Require Import model.TopoPlace proof.TopoPlaceProofs proof.TopoPlaceGrow.
 Import ListNotations.
 Local Open Scope Z_scope.
 
@@ -59,49 +60,96 @@ Theorem c10_admits_iff_some_oracle : forall t o res,
 Proof. exact admits_spec. Qed.
 Print Assumptions c10_admits_iff_some_oracle.
 
-(* ---- non-vacuity ---- *)
-Definition ex_node (id : string) (vol max ec : Z) : dnode :=
-  {| n_id := id; n_usage := [(""%string, mkCounts vol 0 vol ec max)] |}.
-Definition ex_topo : topology :=
-  {| t_usage := [];
-     t_dcs := [ {| d_id := "dc1"; d_usage := [(""%string, mkCounts 3 0 3 0 12)];
-                   d_racks := [ {| r_id := "r1"; r_usage := [(""%string, mkCounts 1 0 1 0 6)];
-                                   r_nodes := [ex_node "n1" 1 3 0; ex_node "n2" 0 3 0] |};
-                                {| r_id := "r2"; r_usage := [(""%string, mkCounts 2 0 2 0 6)];
-                                   r_nodes := [ex_node "n1" 2 3 0; ex_node "n2" 0 3 0] |} ] |};
-                {| d_id := "dc2"; d_usage := [(""%string, mkCounts 0 0 0 0 2)];
-                   d_racks := [ {| r_id := "r1"; r_usage := [(""%string, mkCounts 0 0 0 0 2)];
-                                   r_nodes := [ex_node "n1" 0 2 0] |} ] |} ] |}.
-Definition ex_opt : grow_option :=
-  {| go_disk := ""; go_dc := "dc1"; go_rack := ""; go_node := ""; rp_dc := 1; rp_rack := 1; rp_same := 1 |}.
-Definition ex_oracle : oracle :=
-  {| o_dc_order := [1%nat]; o_dc_rs := [5]; o_rack_order := [1%nat]; o_rack_rs := [7; 1];
-     o_node_order := []; o_node_rs := [2]; o_other_racks := [{| ro_r := 4; ro_nodes := [1%nat] |}];
-     o_other_dcs := [{| do_r := 1; do_racks := []; do_nodes := [] |}] |}.
+(* ---- completeness ---- *)
+(* all_paths_ok is decidable (counters of every level do not promise more than the children
+   hold, and every data center / rack the weighted pick may choose as the main one has enough
+   candidates): then the search succeeds for EVERY map order and random numbers.  The check
+   evaluates it on every case: the implementation must not report an error there. *)
+Theorem c10_success_when_all_paths_ok : forall orc t o,
+  wf_topology t = true -> all_paths_ok t o = true -> snd (find_empty_slots orc t o) = false.
+Proof. exact all_paths_ok_success_thm. Qed.
+Print Assumptions c10_success_when_all_paths_ok.
 
+(* PickNodesByWeight's failure does not depend on map order or random numbers *)
+Theorem c10_pick_succeeds_unless_pick_fails : forall A (avail : A -> Z) order rs number filt children,
+  pick_fails avail number filt children = false ->
+  exists first rest, pick_nodes avail order rs number filt children = Some (first, rest).
+Proof. exact pick_nodes_some. Qed.
+Print Assumptions c10_pick_succeeds_unless_pick_fails.
+
+(* every rand.Int63n(n) of the reserve loops has n > 0 (Go would panic on 0; the model's
+   Z.modulo _ 0 is never evaluated) *)
+Theorem c10_int63n_args_positive : forall orc t o, int63n_args_positive orc t o = true.
+Proof. exact int63n_args_positive_thm. Qed.
+Print Assumptions c10_int63n_args_positive.
+
+(* ---- allocation (findAndGrow = search, then grow) ---- *)
+(* No error: for EVERY fail plan of the AllocateVolume RPCs the new volume is held and
+   registered by exactly the servers of a valid placement, and the counters of exactly those
+   servers and their ancestors were raised. *)
+Theorem c10_grow_success_is_full_placement : forall orc fl t o,
+  wf_topology t = true -> gr_err (find_and_grow orc fl t o) = false ->
+  gr_allocated (find_and_grow orc fl t o) = gr_found (find_and_grow orc fl t o) /\
+  placement_ok t o (gr_allocated (find_and_grow orc fl t o)) = true /\
+  gr_topo (find_and_grow orc fl t o) =
+    fold_left (add_volume (go_disk o)) (gr_found (find_and_grow orc fl t o)) t.
+Proof. exact find_and_grow_success_thm. Qed.
+Print Assumptions c10_grow_success_is_full_placement.
+
+(* "An error instead of a partial placement" is FALSE for the allocation (known finding 0):
+   grow returns at the first refused AllocateVolume and leaves the earlier replicas allocated,
+   counted and registered. *)
+Theorem c10_grow_all_or_none_refuted :
+  exists orc fl t o,
+    wf_topology t = true /\ trigger_partial_grow fl o = true /\
+    gr_err (find_and_grow orc fl t o) = true /\
+    gr_allocated (find_and_grow orc fl t o) = [("dc1", "r1", "n1")%string] /\
+    length (gr_found (find_and_grow orc fl t o)) = 2%nat /\
+    node_counts (gr_topo (find_and_grow orc fl t o)) "" ("dc1", "r1", "n1")%string = Some (mkCounts 1 0 1 0 2) /\
+    node_counts (gr_topo (find_and_grow orc fl t o)) "" ("dc1", "r1", "n2")%string = Some (mkCounts 0 0 0 0 2).
+Proof. exact find_and_grow_all_or_none_refuted_thm. Qed.
+Print Assumptions c10_grow_all_or_none_refuted.
+
+(* Outside the trigger (per grow call: the first refused AllocateVolume is the first call, or
+   none of the 1+x+y+z calls is refused) an error leaves nothing behind. *)
+Theorem c10_grow_all_or_none_partial : forall orc fl t o,
+  wf_topology t = true -> trigger_partial_grow fl o = false ->
+  gr_err (find_and_grow orc fl t o) = true ->
+  gr_allocated (find_and_grow orc fl t o) = [] /\ gr_topo (find_and_grow orc fl t o) = t.
+Proof. exact find_and_grow_partial_thm. Qed.
+Print Assumptions c10_grow_all_or_none_partial.
+
+(* ---- non-vacuity (definitions and proofs in proof/TopoPlaceGrow.v) ---- *)
 (* the hypotheses of c10_placement are satisfiable on a 2-DC topology with replication 111,
    and the model returns 4 servers *)
 Example c10_example :
   wf_topology ex_topo = true /\
   exists ss, find_empty_slots ex_oracle ex_topo ex_opt = (ss, false) /\ length ss = 4%nat.
-Proof. split; [vm_compute; reflexivity|eexists; split; vm_compute; reflexivity]. Qed.
+Proof. exact placement_example. Qed.
+Print Assumptions c10_example.
 
-(* the greedy algorithm can fail although a placement exists: a rack whose own counter hides
-   (EC-shard term) that its nodes are full makes ReserveOneVolume fail after the main rack was
-   chosen; the result is an error carrying the partial list *)
-Definition ex_ec_topo : topology :=
-  {| t_usage := [];
-     t_dcs := [ {| d_id := "dc1"; d_usage := [(""%string, mkCounts 1 0 1 15 10)];
-                   d_racks := [ {| r_id := "r1"; r_usage := [(""%string, mkCounts 1 0 1 0 4)];
-                                   r_nodes := [ex_node "n1" 0 2 0; ex_node "n2" 1 2 0] |};
-                                {| r_id := "r2"; r_usage := [(""%string, mkCounts 0 0 0 15 6)];
-                                   r_nodes := [ex_node "n1" 0 2 5; ex_node "n2" 0 2 5; ex_node "n3" 0 2 5] |} ] |} ] |}.
+(* the greedy algorithm can fail after the main rack was chosen: a rack whose own counter hides
+   (EC-shard term) that its nodes are full makes ReserveOneVolume fail; the result is an error
+   carrying the partial list; counters_sound is false there *)
 Example c10_example_error_with_partial_list :
-  exists orc ss, find_empty_slots orc ex_ec_topo
-                   {| go_disk := ""; go_dc := ""; go_rack := "r1"; go_node := ""; rp_dc := 0; rp_rack := 1; rp_same := 0 |}
-                 = (ss, true) /\ length ss = 1%nat.
-Proof.
-  exists {| o_dc_order := []; o_dc_rs := []; o_rack_order := []; o_rack_rs := []; o_node_order := [];
-            o_node_rs := []; o_other_racks := [{| ro_r := 3; ro_nodes := [] |}]; o_other_dcs := [] |}.
-  eexists. split; vm_compute; reflexivity.
-Qed.
+  counters_sound ex_ec_topo ex_ec_opt = false /\
+  exists orc ss, find_empty_slots orc ex_ec_topo ex_ec_opt = (ss, true) /\ length ss = 1%nat.
+Proof. exact error_with_partial_list_example. Qed.
+Print Assumptions c10_example_error_with_partial_list.
+
+(* all_paths_ok is satisfiable (2 DCs, replication 110, preferred data center) *)
+Example c10_example_all_paths_ok :
+  wf_topology cp_topo = true /\ all_paths_ok cp_topo cp_opt = true /\
+  length (fst (find_empty_slots gw_oracle cp_topo cp_opt)) = 3%nat.
+Proof. exact all_paths_ok_example. Qed.
+Print Assumptions c10_example_all_paths_ok.
+
+(* the hypotheses of c10_grow_all_or_none_partial are satisfiable: first call refused -> error
+   and nothing allocated; no call refused -> both replicas allocated *)
+Example c10_example_grow :
+  wf_topology gw_topo = true /\ trigger_partial_grow [true] gw_opt = false /\
+  gr_err (find_and_grow gw_oracle [true] gw_topo gw_opt) = true /\
+  gr_err (find_and_grow gw_oracle [] gw_topo gw_opt) = false /\
+  length (gr_allocated (find_and_grow gw_oracle [] gw_topo gw_opt)) = 2%nat.
+Proof. exact find_and_grow_partial_example. Qed.
+Print Assumptions c10_example_grow.
